@@ -39,14 +39,22 @@ type vxStallCase struct {
 	// frames for streams 1..3). The driver may give the connection up; it must not go on reading frames from the
 	// middle of that body.
 	Long int `json:"long,omitempty"`
+	// Pushed > 0: instead of the rounds, frames nobody waits for arrive on an idle connection (1: an EVENT on
+	// stream -1, 2: a void result on a stream without a request, 3: both); 0.6 read timeouts later a request is
+	// sent, and it is answered 0.6 read timeouts after that - more than a read timeout after the pushed frame.
+	Pushed int `json:"pushed,omitempty"`
 }
 
 const vxStallTimeout = 250 * time.Millisecond
 
 func vxDrawStall(t *rapid.T) *vxStallCase {
 	c := &vxStallCase{Proto: rapid.IntRange(1, 5).Draw(t, "proto")}
-	if rapid.IntRange(0, 5).Draw(t, "long") == 0 {
+	switch rapid.IntRange(0, 7).Draw(t, "long") {
+	case 0:
 		c.Long = rapid.IntRange(1, 5).Draw(t, "long_n")
+		return c
+	case 1:
+		c.Pushed = rapid.IntRange(1, 3).Draw(t, "pushed")
 		return c
 	}
 	for i := rapid.IntRange(1, 2).Draw(t, "rounds"); i > 0; i-- {
@@ -160,7 +168,7 @@ type vxStallResult struct {
 }
 
 func vxRunStall(c *vxStallCase, k *vstats.Case) error {
-	if c.Proto < 1 || c.Proto > 5 || (len(c.Rounds) == 0 && c.Long <= 0) {
+	if c.Proto < 1 || c.Proto > 5 || (len(c.Rounds) == 0 && c.Long <= 0 && (c.Pushed <= 0 || c.Pushed > 3)) {
 		return nil
 	}
 	cl := vnode.NewCluster(vxSpecs(1, 1))
@@ -212,6 +220,65 @@ func vxRunStall(c *vxStallCase, k *vstats.Case) error {
 			return fmt.Errorf("%s %s: row %q together with error %v", what, r.tok, r.got, r.err)
 		}
 		return nil
+	}
+	if c.Pushed > 0 && c.Long <= 0 {
+		// learn the connection that carries requests
+		wres := make(chan vxStallResult, 1)
+		go ask("warm", wres)
+		if !waitArrival("warm") {
+			return fmt.Errorf("harness: request warm never reached the node")
+		}
+		wrc := node.take("warm")
+		if f, err := vxStallFrame(wrc, "warm", 3); err != nil {
+			return fmt.Errorf("harness: %v", err)
+		} else if err := wrc.Conn.SendRaw(f); err != nil {
+			return fmt.Errorf("harness: write: %v", err)
+		}
+		if r := <-wres; r.err != nil || r.got != "warm" {
+			return fmt.Errorf("harness: warm-up request: %q, %v", r.got, r.err)
+		}
+		t0 := time.Now()
+		if c.Pushed&1 != 0 {
+			if err := wrc.Conn.Send(&cqlspec.Response{Kind: "EVENT", Version: c.Proto, Stream: -1, EventType: "STATUS_CHANGE", Change: "UP", AddrHex: "0a0000fe", Port: 9042}); err != nil {
+				return fmt.Errorf("harness: write: %v", err)
+			}
+		}
+		if c.Pushed&2 != 0 {
+			if err := wrc.Conn.Send(&cqlspec.Response{Kind: "VOID", Version: c.Proto, Stream: 101}); err != nil {
+				return fmt.Errorf("harness: write: %v", err)
+			}
+		}
+		time.Sleep(time.Until(t0.Add(vxStallTimeout * 6 / 10)))
+		res := make(chan vxStallResult, 1)
+		sent := time.Now()
+		go ask("after_push", res)
+		if !waitArrival("after_push") {
+			return fmt.Errorf("harness: request after_push never reached the node")
+		}
+		rc := node.take("after_push")
+		time.Sleep(time.Until(t0.Add(vxStallTimeout * 12 / 10)))
+		f, err := vxStallFrame(rc, "after_push", 9)
+		if err != nil {
+			return fmt.Errorf("harness: %v", err)
+		}
+		werr := rc.Conn.SendRaw(f)
+		late := time.Since(sent) > vxStallTimeout*9/10
+		select {
+		case r := <-res:
+			if r.err == nil {
+				k.NonTrivial()
+				k.Class(fmt.Sprintf("unsolicited frame kind %d, then a request answered more than a read timeout later", c.Pushed))
+				return judge(r, 9, "request")
+			}
+			if late && errors.Is(r.err, ErrTimeoutNoResponse) {
+				k.Class("pushed: machine too slow, the request's own timeout expired")
+				return nil
+			}
+			return fmt.Errorf("an unsolicited frame (kind %d) arrived on an idle connection; a request sent 0.6 read timeouts later and answered 0.6 read timeouts after that (%v after it was sent, timeout %v) failed with %v (write of the answer: %v) - the read deadline armed for the unsolicited frame's body was left standing",
+				c.Pushed, time.Since(sent).Round(time.Millisecond), vxStallTimeout, r.err, werr)
+		case <-time.After(10 * time.Second):
+			return fmt.Errorf("a request sent after an unsolicited frame did not return within 10 s (hang)")
+		}
 	}
 	if c.Long > 0 {
 		k.NonTrivial()
@@ -487,7 +554,7 @@ func vxHead(b []byte, n int) []byte {
 func TestVxC01Stall(t *testing.T) {
 	vx.Check(t, vx.Prop{
 		ID: "C01", Part: "TestVxC01Stall",
-		Rule: "protocol 1..5, read timeout 250 ms, 1..2 rounds: one response (blob cell of 0..5000 bytes made of byte patterns that read as frame headers) written in 2..3 pieces cut anywhere, pauses of 0/30/140/160/230 % of the timeout between them (whole frame within 3.6 timeouts; a run where load stretched that beyond 4 is not judged), 0..2 riders issued during the last pause and answered in the same write as the last piece, then 1..3 probes; oracle: own row and payload or the driver's timeout only, probes succeed, no connection closed or replaced; non-trivial = a pause beyond the timeout after at least one body byte; distinct by protocol, blob size, cuts, pauses, riders",
+		Rule: "protocol 1..5, read timeout 250 ms, 1..2 rounds: one response (blob cell of 0..5000 bytes made of byte patterns that read as frame headers) written in 2..3 pieces cut anywhere, pauses of 0/30/140/160/230 % of the timeout between them (whole frame within 3.6 timeouts; a run where load stretched that beyond 4 is not judged), 0..2 riders issued during the last pause and answered in the same write as the last piece, then 1..3 probes; oracle: own row and payload or the driver's timeout only, probes succeed, no connection closed or replaced; non-trivial = a pause beyond the timeout after at least one body byte; distinct by protocol, blob size, cuts, pauses, riders; or (one case in eight) frames nobody waits for (an EVENT on stream -1, a void result on a stream without request) arrive on the idle connection, a request follows 0.6 timeouts later and is answered 1.2 timeouts after the pushed frame: it must get its answer (a request whose own timeout expired because the machine was slow is counted, not judged)",
 		Draw: func(t *rapid.T) interface{} { return vxDrawStall(t) },
 		New:  func() interface{} { return &vxStallCase{} },
 		Run: func(ci interface{}, k *vstats.Case) error {
